@@ -727,6 +727,16 @@ structure Facts where
   /-- `WriteBuffer.Add` reports full at `math.MaxUint16` entries: a fault-free writer never hands
       `CompressEntries` more than the 16-bit count field holds (the bound of `MkOk`) -/
   flushesAtCountBound : Tri
+  /-- readNextBlock takes a zero-filled tail for the end of the data -/
+  zeroTailIsEOF : Tri
+  /-- runCompactionLocked closes the writer first whenever one is open (`cCompactLocked`: close, then compact) -/
+  lockedClosesWriterFirst : Tri
+  /-- hydraidectl compact ends when the instance cannot be stopped: the offline compaction of the model
+      (`mStep … (.compactOff …)`: nothing happens while a writer is open) never meets a running server -/
+  cliAbortsWhenStopFails : Tri
+  /-- CompactIfNeeded / ForceCompact / CompactDirectory are `Compactor.Compact` on one file (or nothing): the
+      statements about one compaction of one file are statements about each of them -/
+  wrappersDelegate : Tri
   /-- the reader assumptions of the model (established by C04): a payload that is not the one
       written fails the checksum; the decoded length and the entry count are checked -/
   validatesCrc : Tri
@@ -737,7 +747,7 @@ structure Facts where
   deriving Repr
 
 def cfgOf (f : Facts) : Cfg :=
-  { r := ⟨f.shortHeaderIsEOF.isYes, f.tornDataIsEOF.isYes, false⟩, syncFsyncs := true, closeFsyncs := f.closeFsyncs.isYes,
+  { r := ⟨f.shortHeaderIsEOF.isYes, f.tornDataIsEOF.isYes, false, f.zeroTailIsEOF.isYes⟩, syncFsyncs := true, closeFsyncs := f.closeFsyncs.isYes,
     truncatesTornTail := f.truncatesTornTail.isYes, loadCleansTemp := f.loadCleansTemp.isYes,
     rmTempLocked := f.rmTempLocked.isYes, rmTempFromIndex := f.rmTempFromIndex.isYes,
     rmTempCompactor := f.rmTempCompactor.isYes }
@@ -748,7 +758,8 @@ def modelApplies (f : Facts) : Bool :=
   f.rmTempLocked != .unknown && f.rmTempFromIndex != .unknown && f.rmTempCompactor != .unknown &&
   f.loadCleansTemp != .unknown && f.closeFsyncs != .unknown &&
   f.shortHeaderIsEOF != .unknown && f.tornDataIsEOF != .unknown && f.truncatesTornTail != .unknown &&
-  f.flushesAtCountBound.isYes && f.validatesCrc.isYes && f.validatesULen.isYes && f.parseConsumesAll.isYes
+  f.flushesAtCountBound.isYes && f.validatesCrc.isYes && f.validatesULen.isYes && f.parseConsumesAll.isYes &&
+  f.zeroTailIsEOF != .unknown && f.lockedClosesWriterFirst.isYes && f.cliAbortsWhenStopFails.isYes && f.wrappersDelegate.isYes
 
 def findings (f : Facts) : List String :=
   (if EP.rmFirst (cfgOf f) .locked then [] else ["C03-locked-stale-temp"]) ++
